@@ -7,7 +7,8 @@
 (***************************************************************************)
 EXTENDS ErrorPolicy, Json
 
-CONSTANTS NLines, Overrides   \* Overrides: "none" | "single" | "pairs"
+CONSTANTS NLines, Overrides,  \* Overrides: "none" | "single" | "pairs"
+          MaxComps
 
 Kinds == {"argtop", "argval", "rule", "pyexc", "nested", "rhs"}
 B == BOOLEAN
@@ -17,13 +18,14 @@ VMs == IF Overrides = "none" THEN {<<>>}
        ELSE IF Overrides = "single" THEN {<<>>} \cup Singles
        ELSE {<<>>} \cup Singles \cup {p \in Pairs : Cardinality(DOMAIN p) = 2}
 
-VARIABLES policy, vm, kind, bad, k, st, returned, pc
-vars == <<policy, vm, kind, bad, k, st, returned, pc>>
+VARIABLES policy, vm, kind, bad, ncomp, k, st, returned, pc
+vars == <<policy, vm, kind, bad, ncomp, k, st, returned, pc>>
 
 Init == /\ policy \in SUBSET Flags
         /\ kind \in Kinds
         /\ vm \in {v \in VMs : "match" \in DOMAIN v => kind = "argtop"}
         /\ bad \in (SUBSET (0..(NLines-1))) \ {{}}
+        /\ ncomp \in 1..MaxComps          \* how many components of an offending line raise
         /\ k = 0 /\ returned = <<>> /\ pc = "iter"
         /\ st = [stopped |-> FALSE, errors |-> <<>>, valid |-> TRUE, printed |-> <<>>, raised |-> FALSE]
 
@@ -31,7 +33,7 @@ Init == /\ policy \in SUBSET Flags
 Line ==
   /\ pc = "iter" /\ k < NLines
   /\ IF k \in bad
-       THEN LET s == Handle(policy, vm, st, k) IN
+       THEN LET s == HandleN(policy, vm, st, k, ncomp) IN
             /\ st' = s
             /\ returned' = IF ErrLineMatches(vm, kind) /\ ~s.raised THEN Append(returned, k) ELSE returned
             /\ pc' = IF s.raised \/ s.stopped \/ k + 1 = NLines THEN "done" ELSE "iter"
@@ -39,7 +41,7 @@ Line ==
             /\ pc' = IF k + 1 = NLines THEN "done" ELSE "iter"
             /\ UNCHANGED st
   /\ k' = k + 1
-  /\ UNCHANGED <<policy, vm, kind, bad>>
+  /\ UNCHANGED <<policy, vm, kind, bad, ncomp>>
 Next == Line
 Spec == Init /\ [][Next]_vars
 
@@ -50,6 +52,10 @@ Handled == {n \in bad : n < k}                 \* offending lines the run got to
 FirstBad == CHOOSE n \in bad : \A m \in bad : n <= m
 RaiseIff   == Done => (st.raised <=> Eff(policy, vm, "raise"))
 CollectIff == Done => (IF "collect" \in policy THEN SetOf(st.errors) = Handled ELSE st.errors = <<>>)
+\* every error of a line is handled (one record each) unless one of them was raised to the caller
+Count(s, x) == Cardinality({i \in 1..Len(s) : s[i] = x})
+EveryErrorHandled == (Done /\ "collect" \in policy) =>
+   \A n \in Handled : Count(st.errors, n) = IF Eff(policy, vm, "raise") THEN 1 ELSE ncomp
 FailIff    == Done => (st.valid <=> ~Eff(policy, vm, "fail"))
 PrintIff   == Done => (IF Eff(policy, vm, "print") THEN SetOf(st.printed) = Handled ELSE st.printed = <<>>)
 StopIff    == Done => (st.stopped <=> Eff(policy, vm, "stop"))
@@ -59,7 +65,7 @@ NoMatchOnError == Done => \A n \in SetOf(returned) : n \in bad => ErrLineMatches
 GoodLinesReturned == Done => \A n \in 0..(k-1) : n \notin bad => n \in SetOf(returned)
 QuietChangesNothing == TRUE   \* by construction: Handle never consults "quiet"
 
-Emit == Done => PrintT(<<"F", ToJson([policy |-> policy, vm |-> vm, kind |-> kind, bad |-> bad,
+Emit == Done => PrintT(<<"F", ToJson([policy |-> policy, vm |-> vm, kind |-> kind, bad |-> bad, ncomp |-> ncomp,
                                       considered |-> k, returned |-> returned, errors |-> st.errors,
                                       valid |-> st.valid, printed |-> st.printed, raised |-> st.raised,
                                       stopped |-> st.stopped])>>)
